@@ -176,6 +176,7 @@ Section Inv.
     intros res src dst Ts Td. unfold transfer, offer.
     destruct (cur src) as [c|]; [|exact Td].
     destruct (rev_diff _ _); [exact Td|].
+    destruct (unsendable _ _); [exact Td|].
     destruct (put_existing _ _ _ _ _ _ _) as [p' st] eqn:E. cbn [fst].
     eapply put_existing_inv; eauto. apply history_ghist. exact Ts.
   Qed.
